@@ -28,7 +28,10 @@ def run(tier):
         r4 = vp.tlc("MC_Lineage", "MC_Lineage_run", workers=8, timeout=6000, name="c04-4", xmx="24g")
         C.add_tlc(r4, "MC_Lineage MaxChain=4, without the sibling / three-level shapes")
         seen4 = set(json.dumps(v["g"], sort_keys=True) for v in vecs)
-        vecs = vecs + [v for v in r4.tags["VEC"] if json.dumps(v["g"], sort_keys=True) not in seen4]
+        lite = [v for v in r4.tags["VEC"] if json.dumps(v["g"], sort_keys=True) not in seen4]
+        for v in lite:
+            v["_lite"] = True          # chains of 4: two batch orders and the one-by-one history only (they are ~8 x 10^5)
+        vecs = vecs + lite
     # longer chains with block a only (absent / defined / defined with super() per level): gaps between definers
     slim = 5 if tier == "quick" else 5
     with open(vp.SPEC + "/MC_Lineage_run.cfg", "w") as f:
@@ -53,6 +56,8 @@ def run(tier):
                 perms = [perms[0]] + rnd.sample(perms[1:-1], 1 if tier == "quick" else 2) + [perms[-1]]
             if tier == "quick" and len(perms) > 2:
                 perms = [perms[0], perms[-1]]         # (a third order goes through add_template_files below)
+            if v.get("_lite"):
+                perms = [perms[0], perms[-1]]
             variants = [[{"op": "add", "tpls": list(p)}] for p in perms]
             allp = list(itertools.permutations(tpls))
             variants.append([{"op": "add", "tpls": list(allp[len(allp) // 2]), "via": "files"}])          # a batch through add_template_files
